@@ -37,7 +37,7 @@ Definition write_data (id off : N) (buf : list byte) : M unit :=
   let new_len := N.max old_len (off + lenN buf) in
   do new_start <-
     (if old_start =? END_OF_CHAIN then
-       (if negb (old_len =? 0) then panic 603 else if negb (off =? 0) then panic 604 else ret tt) ;;
+       (if negb (old_len =? 0) then fail EInvalidData else if negb (off =? 0) then panic 604 else ret tt) ;;
        if new_len <? MINI_STREAM_CUTOFF then
          do c <- mchain_new END_OF_CHAIN;
          do c <- mchain_write_all c buf;
@@ -88,7 +88,7 @@ Definition resize (id new_len : N) : M unit :=
   do '(old_start, old_len) <- stream_entry id;
   do new_start <-
     (if old_start =? END_OF_CHAIN then
-       (if negb (old_len =? 0) then panic 609 else ret tt) ;;
+       (if negb (old_len =? 0) then fail EInvalidData else ret tt) ;;
        if new_len <? MINI_STREAM_CUTOFF then
          do c <- mchain_new END_OF_CHAIN;
          do c <- mchain_set_len c new_len;
